@@ -50,6 +50,8 @@ class Lab:
             def validateHandshake(self, conn, data):
                 v = lab.validator
                 lab.log.append({"e": "Validate", "c": lab.conn_of_sock(conn.sock), "v": v})
+                if lab.handshake_annotation:
+                    lab.current_context.response_annotations = {"HSHK": b"1"}       # travels with the handshake answer
                 if v.startswith("raise:"):
                     raise lab.exception_for(v[6:])
                 if v.startswith("return:"):
@@ -66,6 +68,7 @@ class Lab:
                 return dict(lab.daemon_annotations)
         self.validator = validator
         self.hook_raises = False
+        self.handshake_annotation = False
         self.daemon_annotations = {}
         self.current_context = current_context
         if validator_install == "instance":
